@@ -35,6 +35,23 @@ fn main() {
 		for (n, _) in fbr_harness::all() { println!("{n}"); }
 		return;
 	}
+	if args.len() == 4 && args[1] == "--enum-bytes" {
+		// diagnosis only (never used by a check): run a harness natively on every tuple of n bytes in 1..=127
+		let Some((_, f)) = fbr_harness::all().into_iter().find(|(n, _)| *n == args[2]) else { eprintln!("unknown harness"); std::process::exit(4) };
+		let n: usize = args[3].parse().unwrap_or(1);
+		panic::set_hook(Box::new(|_| {}));
+		let mut v = vec![1u8; n];
+		let mut shown = 0;
+		loop {
+			fbr_harness::sym::load(v.iter().map(|b| vec![*b]).collect());
+			if let Err(p) = panic::catch_unwind(f) {
+				let msg = p.downcast_ref::<String>().cloned().or_else(|| p.downcast_ref::<&str>().map(|s| s.to_string())).unwrap_or_default();
+				if !msg.contains(fbr_harness::sym::ASSUME_FAILED) && !msg.contains(fbr_harness::sym::EXHAUSTED) && shown < 20 { println!("FAIL {:?} {:?}: {msg}", v, String::from_utf8_lossy(&v)); shown += 1; }
+			}
+			let mut i = 0;
+			loop { if i == n { return; } if v[i] < 127 { v[i] += 1; break; } v[i] = 1; i += 1; }
+		}
+	}
 	if args.len() != 3 { eprintln!("usage: replay <harness> <values.json> | --list"); std::process::exit(4); }
 	let Some((_, f)) = fbr_harness::all().into_iter().find(|(n, _)| *n == args[1]) else {
 		eprintln!("unknown harness {}", args[1]); std::process::exit(4);
